@@ -10,7 +10,10 @@ Definition ostr (o : option str) : obs :=
 Definition out (p : resp) : obs :=
   OList [OInt (status p); OBool (ran p); ostr (token p); ostr (set_cookie p)].
 
-Definition run_case (r : req) : obs := out (handle r).
+(* one correspondence case: the request, and optionally the raw Cookie header it
+   arrived with (then get_cookie is what the header parses to) *)
+Definition run_req (r : req) : obs := out (handle r).
+Definition run_case (c : option str * req) : obs := run_req (apply_header (fst c) (snd c)).
 
 (* ---------- the property on observables ---------- *)
 
@@ -25,7 +28,7 @@ Definition cfg_ok (r : req) : bool :=
    carrier [k] (0 form field, 1 X-XSRFToken, 2 X-CSRFToken), with the cookie it
    holds afterwards (the Set-Cookie value if one was sent, else the old cookie) *)
 Definition follow_up (r : req) (tk : str) (k : nat) : req :=
-  mkreq true POST (r_outver r)
+  mkreq true M_POST [M_POST] (r_outver r)
         (match fst (fst (raw_token r)) with None => Some tk | Some _ => r_cookie r end)
         (match k with O => [tk] | _ => [] end)
         (match k with 1%nat => Some tk | _ => None end)
@@ -41,9 +44,12 @@ Definition issued_ok (r : req) (tk : str) : bool :=
   end
   && xsrf_ok (follow_up r tk 0) && xsrf_ok (follow_up r tk 1) && xsrf_ok (follow_up r tk 2).
 
-Definition check_case (r : req) (o : obs) : bool :=
+Definition check_req (r : req) (o : obs) : bool :=
   match o with
   | OList [OInt st; OBool rn; t; sc] =>
+    if negb (mem_str (r_method r) (r_supported r))
+    then (st =? 405)%Z && negb rn && obs_eqb t ONone && obs_eqb sc ONone    (* verb not declared by the handler *)
+    else
       (* reached the handler iff the gate is off or a carried token decodes to
          the non-empty secret of the cookie *)
       Bool.eqb rn (negb (gate r) || xsrf_ok r)
@@ -58,3 +64,6 @@ Definition check_case (r : req) (o : obs) : bool :=
           else (st =? 403)%Z && obs_eqb t ONone && obs_eqb sc ONone)
   | _ => false
   end.
+
+Definition check_case (c : option str * req) (o : obs) : bool :=
+  check_req (apply_header (fst c) (snd c)) o.
